@@ -151,7 +151,70 @@ DivR(w, a, b, k, qr) ==
 RECURSIVE TopBit(_,_)
 TopBit(a, k) == IF k < 0 THEN -1 ELSE IF Bit(a, k) = 1 THEN k ELSE TopBit(a, k - 1)
 \* quotient bits above the dividend's highest set bit are zero: start there
-DivModu(w, a, b) == DivR(w, a, b, TopBit(a, w - 1), <<Zero(w), Zero(w)>>)
+DivModuSerial(w, a, b) == DivR(w, a, b, TopBit(a, w - 1), <<Zero(w), Zero(w)>>)
+
+(* Limb-wise long division (Knuth, TAOCP vol. 2, 4.3.1, algorithm D) in base B: one quotient limb *)
+(* per step instead of one bit.  MC_BV checks it against BVMath and against DivModuSerial.         *)
+RECURSIVE BitLen(_)
+BitLen(x) == IF x = 0 THEN 0 ELSE 1 + BitLen(x \div 2)
+RECURSIVE TopLimb(_,_)
+TopLimb(b, i) == IF i = 0 THEN 0 ELSE IF b[i] # 0 THEN i ELSE TopLimb(b, i - 1)
+
+\* division of the n-limb a by the single limb d # 0
+RECURSIVE ShortDivR(_,_,_,_,_)
+ShortDivR(a, d, i, q, r) ==
+  IF i = 0 THEN <<q, r>>
+  ELSE LET cur == r * B + a[i] IN ShortDivR(a, d, i - 1, TLCEval([q EXCEPT ![i] = cur \div d]), cur % d)
+
+\* u[j+1 .. j+m+1] -= qh * v[1..m]; returns <<u', borrow out (0/1)>>
+RECURSIVE MulSubR(_,_,_,_,_,_,_)
+MulSubR(u, v, qh, j, i, m, cb) ==
+  IF i > m THEN
+     LET t == u[j + m + 1] - cb[1] - cb[2] IN
+     <<[u EXCEPT ![j + m + 1] = IF t < 0 THEN t + B ELSE t], IF t < 0 THEN 1 ELSE 0>>
+  ELSE LET p == qh * v[i] + cb[1]
+           t == u[j + i] - (p % B) - cb[2]
+       IN MulSubR(TLCEval([u EXCEPT ![j + i] = IF t < 0 THEN t + B ELSE t]), v, qh, j, i + 1, m,
+                  <<p \div B, IF t < 0 THEN 1 ELSE 0>>)
+
+\* u[j+1 .. j+m+1] += v[1..m] (the final carry is dropped)
+RECURSIVE AddBackR(_,_,_,_,_,_)
+AddBackR(u, v, j, i, m, c) ==
+  IF i > m THEN [u EXCEPT ![j + m + 1] = (u[j + m + 1] + c) % B]
+  ELSE LET t == u[j + i] + v[i] + c IN
+       AddBackR(TLCEval([u EXCEPT ![j + i] = t % B]), v, j, i + 1, m, t \div B)
+
+\* estimate of the quotient limb, corrected so that it is at most one too large
+RECURSIVE QAdj(_,_,_,_,_)
+QAdj(qh, rh, vt, v2, u2) ==
+  IF qh >= B \/ qh * v2 > rh * B + u2
+  THEN IF rh + vt < B THEN QAdj(qh - 1, rh + vt, vt, v2, u2) ELSE qh - 1
+  ELSE qh
+
+RECURSIVE KnuthR(_,_,_,_,_)
+KnuthR(u, v, q, j, m) ==
+  IF j < 0 THEN <<q, u>>
+  ELSE LET num == u[j + m + 1] * B + u[j + m]
+           qh  == QAdj(num \div v[m], num % v[m], v[m], v[m - 1], u[j + m - 1])
+           ms  == TLCEval(MulSubR(u, v, qh, j, 1, m, <<0, 0>>))
+       IN IF ms[2] = 0
+          THEN KnuthR(ms[1], v, TLCEval([q EXCEPT ![j + 1] = qh]), j - 1, m)
+          ELSE KnuthR(TLCEval(AddBackR(ms[1], v, j, 1, m, 0)), v, TLCEval([q EXCEPT ![j + 1] = qh - 1]), j - 1, m)
+
+DivModu(w, a, b) ==
+  LET n == NL(w)
+      m == TopLimb(b, n)
+  IN IF m = 1
+     THEN LET r == ShortDivR(a, b[1], n, Zero(w), 0) IN <<r[1], [i \in 1..n |-> IF i = 1 THEN r[2] ELSE 0]>>
+     ELSE LET sh == LimbBits - BitLen(b[m])                      \* normalise: top limb of v >= B/2
+              up == 2^sh   dn == 2^(LimbBits - sh)
+              ga(i) == IF i < 1 \/ i > n THEN 0 ELSE a[i]
+              gb(i) == IF i < 1 THEN 0 ELSE b[i]
+              u == [i \in 1..(n + 1) |-> ((ga(i) * up) % B) + (ga(i - 1) \div dn)]
+              v == [i \in 1..m |-> ((gb(i) * up) % B) + (gb(i - 1) \div dn)]
+              r == KnuthR(u, v, Zero(w), n - m, m)
+              ru(i) == IF i > m THEN 0 ELSE r[2][i]
+          IN <<r[1], [i \in 1..n |-> IF i > m THEN 0 ELSE (ru(i) \div up) + ((ru(i + 1) * dn) % B)]>>
 Divu(w, a, b) == DivModu(w, a, b)[1]
 Modu(w, a, b) == DivModu(w, a, b)[2]
 
